@@ -601,29 +601,87 @@ theorem init_sampleSize (cap : Nat) :
   unfold U32_MAX
   split <;> omega
 
-/-! ## §D  One increment = `bump` (four `incrementAt`) followed, possibly, by an aging step -/
+/-! ## §D  One increment = `bump` (four `incrementAt`) followed, possibly, by an aging step
+
+To keep the kernel away from unfolding `reset`/`incrementAt` on symbolic arguments, the shape
+of `increment` is first established for *abstract* `inc`/`rst` functions. -/
+
+/-- `increment` with the counter update, the aging step, the index function and the start
+offset abstracted. -/
+def incGen (inc : Array Nat → Nat → Nat → Array Nat × Bool) (rst : Sketch → Except Fault Sketch)
+    (idx : Nat → Nat) (st : Nat) (s : Sketch) : Except Fault Sketch :=
+  if s.table.size = 0 then .ok s
+  else
+    let (t, a0) := inc s.table (idx 0) (st + 0)
+    let (t, a1) := inc t (idx 1) (st + 1)
+    let (t, a2) := inc t (idx 2) (st + 2)
+    let (t, a3) := inc t (idx 3) (st + 3)
+    if a0 || a1 || a2 || a3 then
+      if s.size + 1 > U32_MAX then .error .overflow
+      else
+        let s' := { s with table := t, size := s.size + 1 }
+        if s'.size ≥ s'.sampleSize then rst s' else .ok s'
+    else .ok { s with table := t }
+
+theorem increment_eq_incGen (legacy : Bool) (s : Sketch) (hash : UInt64) :
+    increment legacy s hash
+      = incGen incrementAt (reset legacy) (s.indexOf hash) (start hash) s := rfl
+
+/-- The four counter updates, projection style. -/
+def bumpTableGen (inc : Array Nat → Nat → Nat → Array Nat × Bool) (idx : Nat → Nat) (st : Nat)
+    (t : Array Nat) : Array Nat × Bool :=
+  let r0 := inc t (idx 0) (st + 0)
+  let r1 := inc r0.1 (idx 1) (st + 1)
+  let r2 := inc r1.1 (idx 2) (st + 2)
+  let r3 := inc r2.1 (idx 3) (st + 3)
+  (r3.1, r0.2 || r1.2 || r2.2 || r3.2)
+
+theorem incGen_eq (inc : Array Nat → Nat → Nat → Array Nat × Bool)
+    (rst : Sketch → Except Fault Sketch) (idx : Nat → Nat) (st : Nat) (s : Sketch) :
+    incGen inc rst idx st s =
+      if s.table.size = 0 then .ok s
+      else if (bumpTableGen inc idx st s.table).2 = true then
+        if s.size + 1 > U32_MAX then .error .overflow
+        else if s.size + 1 ≥ s.sampleSize then
+          rst { s with table := (bumpTableGen inc idx st s.table).1, size := s.size + 1 }
+        else .ok { s with table := (bumpTableGen inc idx st s.table).1, size := s.size + 1 }
+      else .ok { s with table := (bumpTableGen inc idx st s.table).1 } := by
+  unfold incGen bumpTableGen
+  generalize inc s.table (idx 0) (st + 0) = r0
+  obtain ⟨t0, a0⟩ := r0
+  generalize inc t0 (idx 1) (st + 1) = r1
+  obtain ⟨t1, a1⟩ := r1
+  generalize inc t1 (idx 2) (st + 2) = r2
+  obtain ⟨t2, a2⟩ := r2
+  generalize inc t2 (idx 3) (st + 3) = r3
+  obtain ⟨t3, a3⟩ := r3
+  rfl
 
 /-- The four `incrementAt` of `increment`, with the `added` flag. -/
 def bumpTable (s : Sketch) (hash : UInt64) : Array Nat × Bool :=
-  let r0 := incrementAt s.table (s.indexOf hash 0) (start hash + 0)
-  let r1 := incrementAt r0.1 (s.indexOf hash 1) (start hash + 1)
-  let r2 := incrementAt r1.1 (s.indexOf hash 2) (start hash + 2)
-  let r3 := incrementAt r2.1 (s.indexOf hash 3) (start hash + 3)
-  (r3.1, r0.2 || r1.2 || r2.2 || r3.2)
+  bumpTableGen incrementAt (s.indexOf hash) (start hash) s.table
 
 /-- The state after the counters of `hash` were incremented and `size` was bumped, *before*
 the aging step that this increment may trigger. -/
 def bump (s : Sketch) (hash : UInt64) : Sketch :=
   { s with
     table := (bumpTable s hash).1
-    size := if (bumpTable s hash).2 then s.size + 1 else s.size }
+    size := if (bumpTable s hash).2 = true then s.size + 1 else s.size }
+
+theorem bump_of_added (s : Sketch) (hash : UInt64) (h : (bumpTable s hash).2 = true) :
+    bump s hash = { s with table := (bumpTable s hash).1, size := s.size + 1 } := by
+  unfold bump; rw [if_pos h]
+
+theorem bump_of_not_added (s : Sketch) (hash : UInt64) (h : ¬ (bumpTable s hash).2 = true) :
+    bump s hash = { s with table := (bumpTable s hash).1 } := by
+  unfold bump; rw [if_neg h]
 
 /-- One `increment` that also reports whether it ran the aging step (`reset`). -/
 def incrStep (s : Sketch) (hash : UInt64) : Except Fault (Sketch × Bool) :=
   if s.table.size = 0 then .ok (s, false)
-  else if (bumpTable s hash).2 then
+  else if (bumpTable s hash).2 = true then
     if s.size + 1 > U32_MAX then .error .overflow
-    else if (bump s hash).size ≥ (bump s hash).sampleSize then
+    else if s.size + 1 ≥ s.sampleSize then
       match reset false (bump s hash) with
       | .ok s' => .ok (s', true)
       | .error e => .error e
@@ -638,40 +696,31 @@ def dropFlag : Except Fault (Sketch × Bool) → Except Fault Sketch
 theorem increment_eq_bump (legacy : Bool) (s : Sketch) (hash : UInt64) :
     increment legacy s hash =
       if s.table.size = 0 then .ok s
-      else if (bumpTable s hash).2 then
+      else if (bumpTable s hash).2 = true then
         if s.size + 1 > U32_MAX then .error .overflow
-        else if (bump s hash).size ≥ (bump s hash).sampleSize then reset legacy (bump s hash)
+        else if s.size + 1 ≥ s.sampleSize then reset legacy (bump s hash)
         else .ok (bump s hash)
       else .ok (bump s hash) := by
-  unfold increment bump bumpTable
-  generalize incrementAt s.table (s.indexOf hash 0) (start hash + 0) = r0
-  obtain ⟨t0, a0⟩ := r0
-  generalize incrementAt t0 (s.indexOf hash 1) (start hash + 1) = r1
-  obtain ⟨t1, a1⟩ := r1
-  generalize incrementAt t1 (s.indexOf hash 2) (start hash + 2) = r2
-  obtain ⟨t2, a2⟩ := r2
-  generalize incrementAt t2 (s.indexOf hash 3) (start hash + 3) = r3
-  obtain ⟨t3, a3⟩ := r3
-  by_cases hz : s.table.size = 0
-  · simp only [hz, if_true]
-  · simp only [hz, if_false]
-    by_cases ha : (a0 || a1 || a2 || a3) = true
-    · simp only [ha, if_true]
-    · simp only [ha, if_false]
-      rfl
+  rw [increment_eq_incGen, incGen_eq]
+  by_cases ha : (bumpTable s hash).2 = true
+  · rw [bump_of_added s hash ha]; rfl
+  · rw [bump_of_not_added s hash ha]; rfl
 
 /-- `incrStep` is `Sketch.increment false` plus the aging flag. -/
 theorem increment_eq_incrStep (s : Sketch) (hash : UInt64) :
     increment false s hash = dropFlag (incrStep s hash) := by
   rw [increment_eq_bump]
   unfold incrStep
+  generalize reset false (bump s hash) = r
+  generalize bump s hash = b
+  generalize (bumpTable s hash).2 = a
   split
   · rfl
   · split
     · split
       · rfl
       · split
-        · cases reset false (bump s hash) <;> rfl
+        · cases r <;> rfl
         · rfl
     · rfl
 
